@@ -309,6 +309,92 @@ def model_run_decode(res):
     return ('usage' if res[0] == 1 else 'raised', [], [])
 
 
+def layer_d(ctx):
+    """pytest front end: --tagged keeps exactly the tagged tests (own tag or class tag), in order; --istagged (alone
+    or with --tagged) runs none and names each class with tagged tests once and each tagged function; without either
+    option every collected test runs."""
+    import contextlib
+    import io
+    from tdda.referencetest import referencepytest as rp
+    rng = ctx.rng
+
+    class Config:
+        def __init__(self, opts):
+            self.opts = opts
+
+        def getoption(self, name, default=None):
+            return self.opts.get(name, default)
+
+    class Item:
+        def __init__(self, name, obj):
+            self.name, self.obj = name, obj
+
+    for it in range(150 if ctx.quick else 3000):
+        items, spec = [], []
+        for ci in range(rng.randint(0, 3)):
+            cls_tagged = rng.random() < 0.3
+            ns = {}
+            meths = []
+            for mi in range(rng.randint(1, 3)):
+                mt = rng.random() < 0.4
+
+                def f(self):
+                    return None
+                f.__name__ = 'test_%d' % mi
+                if mt:
+                    f._tagged = True
+                ns[f.__name__] = f
+                meths.append((f.__name__, mt))
+            cls = type('C%d' % ci, (object,), ns)
+            if cls_tagged:
+                cls._tagged = True
+            inst = cls()
+            for mn, mt in meths:
+                items.append(Item(mn, getattr(inst, mn)))
+                spec.append(('%s.C%d' % (cls.__module__, ci), None, mt or cls_tagged))
+        for fi in range(rng.randint(0, 2)):
+            ft = rng.random() < 0.5
+
+            def g():
+                return None
+            g.__name__ = 'test_f%d' % fi
+            if ft:
+                g._tagged = True
+            items.append(Item(g.__name__, g))
+            spec.append((None, '%s.%s' % (g.__module__, g.__name__), ft))
+        order = list(range(len(items)))
+        rng.shuffle(order)
+        items = [items[i] for i in order]
+        spec = [spec[i] for i in order]
+        for run_t, show_t in ((None, None), (True, None), (None, True), (True, True)):
+            mine = list(items)
+            buf = io.StringIO()
+            with contextlib.redirect_stdout(buf):
+                rp.tagged(Config({'--tagged': run_t, '--istagged': show_t}), mine)
+            named = [l for l in buf.getvalue().split('\n') if l.strip()]
+            if show_t:
+                want_items = []
+                want_named = []
+                for (cn, fn, tg) in spec:
+                    nm = cn or fn
+                    if tg and nm not in want_named:
+                        want_named.append(nm)
+            elif run_t:
+                want_items = [i for i, (cn, fn, tg) in zip(items, spec) if tg]
+                want_named = []
+            else:
+                want_items, want_named = list(items), []
+            case = {'layer': 'D', 'options': {'--tagged': run_t, '--istagged': show_t},
+                    'items': [(i.name, sp[0] or sp[1], sp[2]) for i, sp in zip(items, spec)]}
+            ctx.count(('D', repr(case)), any(sp[2] for sp in spec))
+            ctx.bump('D.tagged=%s.istagged=%s' % (run_t, show_t))
+            if [id(x) for x in mine] != [id(x) for x in want_items]:
+                ctx.fail(case, 'pytest filter keeps %r to run; property requires %r'
+                         % ([x.name for x in mine], [x.name for x in want_items]))
+            elif sorted(named) != sorted(want_named):
+                ctx.fail(case, 'pytest filter names %r; property requires %r' % (named, want_named))
+
+
 def run(ctx):
     rng = ctx.rng
     # ---------------- layer A
@@ -436,6 +522,8 @@ def run(ctx):
                 ctx.fail({'layer': 'C', 'classes': classes, 'argvs': argvs, 'run': k},
                          'run %d of %r in one process executed %r listed %r; a run on its own gives executed %r listed %r (%s)'
                          % (k, argvs, executed, listed, want[0], want[1], err[-120:]))
+    # ---------------- layer D: the pytest collection filter (referencepytest.tagged) on stand-in items
+    layer_d(ctx)
     ctx.sample({'layer': 'B', 'classes': jobs[0][0], 'argv': jobs[0][1] + jobs[0][2],
                 'executed': results[0][1], 'listed': results[0][2]})
     ctx.cov['rule'] = ('layer A: argv lists over a %d-token alphabet plus random flag-like strings '
